@@ -188,11 +188,15 @@ template <class PT> void run_sequences(vf::Ctx& c, const char* tname, const Scen
   }
   const int NALL = NOPS + 2;   // + "assign the estimator to another, long-lived one and continue with that one", "continue with a copy-constructed estimator"
   auto opname2 = [&](int op) { return op < NOPS ? opname(op) : op == NOPS ? std::string("other = estimator; continue with other") : std::string("continue with a copy-constructed estimator"); };
-  uint64_t total = 1; for (int i = 1; i < depth; ++i) total *= NALL;
-  std::vector<int> seq(depth); seq[0] = firstOp;
+  // firstOp < 0: long run - a fixed script of 30 calls cycling through the 16 find operations, and every variant with ONE position replaced by any operation
+  const bool longRun = firstOp < 0; if (longRun) depth = 30;
+  uint64_t total = 1; if (longRun) total = (uint64_t)depth * NALL + 1; else for (int i = 1; i < depth; ++i) total *= NALL;
+  std::vector<int> seq(depth), base(depth); if (!longRun) seq[0] = firstOp;
+  for (int i = 0; i < depth; ++i) base[i] = (i * 7 + 3) % NOPS;
   using Est = FindRigidTransformationByLeastSquares<PT>;
   for (uint64_t k = 0; k < total; ++k) {
-    uint64_t r = k; for (int i = 1; i < depth; ++i) { seq[i] = r % NALL; r /= NALL; }
+    if (longRun) { seq = base; if (k) seq[(k - 1) / NALL] = (int)((k - 1) % NALL); }
+    else { uint64_t r = k; for (int i = 1; i < depth; ++i) { seq[i] = r % NALL; r /= NALL; } }
     std::unique_ptr<Est> cur(new Est), other(new Est); int modelPre = 0;
     { PreconditionedPointSet<PT> ps(src[1], scales[3]), pt(tgt[1], scales[3]); other->setPreconditioner(ps, pt); other->find(ps, pt, nrm[1]); }   // the other estimator has a past of its own
     for (int i = 0; i < depth; ++i) {
@@ -227,12 +231,12 @@ void init() { if (g2.empty()) { g2 = scenes(2); g3 = scenes(3); } }
 
 }  // namespace
 
-uint64_t vf_ncases(const std::string& tier) { init(); return 4 * g2.size() + 4 * g3.size() + 8 * 18; }
+uint64_t vf_ncases(const std::string& tier) { init(); return 4 * g2.size() + 4 * g3.size() + 8 * 18 + 8; }
 
 void vf_run(uint64_t idx, const std::string& tier, vf::Ctx& c) {
   init();
   uint64_t nl = 4 * g2.size() + 4 * g3.size();
-  if (idx >= nl) { int t = (int)(idx - nl) / 18, f = (int)(idx - nl) % 18, d = tier == "thorough" ? 6 : 3;
+  if (idx >= nl) { int t = (int)(idx - nl) / 18, f = (int)(idx - nl) % 18; if (idx - nl >= 8 * 18) { t = (int)(idx - nl) - 8 * 18; f = -1; } int d = tier == "thorough" ? 6 : 3;
     switch (t) { case 0: run_sequences<Eigen::Vector2d>(c, kTypes[0], g2[1], d, f); break; case 1: run_sequences<Eigen::Vector2f>(c, kTypes[1], g2[1], d, f); break; case 2: run_sequences<HomogeneousCoordinates2d>(c, kTypes[2], g2[1], d, f); break; case 3: run_sequences<HomogeneousCoordinates2f>(c, kTypes[3], g2[1], d, f); break;
       case 4: run_sequences<Eigen::Vector3d>(c, kTypes[4], g3[1], d, f); break; case 5: run_sequences<Eigen::Vector3f>(c, kTypes[5], g3[1], d, f); break; case 6: run_sequences<HomogeneousCoordinates3d>(c, kTypes[6], g3[1], d, f); break; default: run_sequences<HomogeneousCoordinates3f>(c, kTypes[7], g3[1], d, f); }
     return; }
@@ -242,7 +246,7 @@ void vf_run(uint64_t idx, const std::string& tier, vf::Ctx& c) {
     switch (t) { case 0: run_scene<Eigen::Vector3d>(c, kTypes[4], s, tier == "thorough"); break; case 1: run_scene<Eigen::Vector3f>(c, kTypes[5], s, tier == "thorough"); break; case 2: run_scene<HomogeneousCoordinates3d>(c, kTypes[6], s, tier == "thorough"); break; default: run_scene<HomogeneousCoordinates3f>(c, kTypes[7], s, tier == "thorough"); } }
 }
 
-std::string vf_case_params(uint64_t idx, const std::string& tier) { init(); if (idx >= 4 * g2.size() + 4 * g3.size()) return vf::JO().u("case", idx).str("explorer", "S").str("type", kTypes[(idx - 4 * g2.size() - 4 * g3.size()) / 18]).u("first_op", (idx - 4 * g2.size() - 4 * g3.size()) % 18).done(); bool is2 = idx < 4 * g2.size(); uint64_t r = is2 ? idx : idx - 4 * g2.size(); const auto& g = is2 ? g2 : g3; return vf::JO().u("case", idx).str("type", kTypes[(is2 ? 0 : 4) + r / g.size()]).str("scene", g[r % g.size()].name).done(); }
+std::string vf_case_params(uint64_t idx, const std::string& tier) { init(); if (idx >= 4 * g2.size() + 4 * g3.size()) return vf::JO().u("case", idx).str("explorer", "S").str("type", kTypes[(idx - 4 * g2.size() - 4 * g3.size()) >= 144 ? (idx - 4 * g2.size() - 4 * g3.size()) - 144 : (idx - 4 * g2.size() - 4 * g3.size()) / 18]).i("first_op", (idx - 4 * g2.size() - 4 * g3.size()) >= 144 ? -1 : (int)((idx - 4 * g2.size() - 4 * g3.size()) % 18)).done(); bool is2 = idx < 4 * g2.size(); uint64_t r = is2 ? idx : idx - 4 * g2.size(); const auto& g = is2 ? g2 : g3; return vf::JO().u("case", idx).str("type", kTypes[(is2 ? 0 : 4) + r / g.size()]).str("scene", g[r % g.size()].name).done(); }
 
 std::string vf_describe(const std::string& tier) {
   init(); vf::JO o; std::vector<std::string> a, b; for (auto& s : g2) a.push_back(s.name); for (auto& s : g3) b.push_back(s.name);
@@ -252,6 +256,7 @@ std::string vf_describe(const std::string& tier) {
   o.str("correspondences", "identity, subset in reversed order, target and normals stored permuted (source index != target index)");
   o.str("overloads", "index-based on a fresh estimator, index-based on one estimator reused for the whole scene, aligned, preconditioned by 1e-3 and 1e3 with setPreconditioner");
   o.str("S", std::string("every sequence of ") + (tier == "thorough" ? "6" : "3") + " operations out of 18 (all / half of the points x index-based / aligned x {find on sets scaled as configured, setPreconditioner with scale 1, 0.05, 40 then find}; assign the estimator to another long-lived estimator and continue with that one; continue with a copy-constructed estimator) on ONE estimator, 8 point types, 40-point square / 96-point box with a 0.09 rad motion and perturbed sources; every answer within twice the forward-error bound of the answer of a fresh estimator");
+  o.str("S_long", "per point type: a fixed script of 30 calls cycling through the 16 find operations on one estimator, and every variant with ONE position replaced by any of the 18 operations (deviation bound 1); same oracle after every call");
   o.str("oracle", "J and Y rebuilt from the definition in long double; parameters vs Householder-QR solution within 4 p eps kappa^2 (|x|+|Y|/smax); identity+skew+translation shape; normal-equation residual; all overloads agree; pure translation exact; rotation error <= 2 kappa theta^2 (extent+|t|+1) sqrt(p); kappa(J)^2 >= 1e6 or no digits in the scalar type => outside the quantifier (trivial)");
   return o.done();
 }
